@@ -152,6 +152,7 @@ def setup():
         import specials as S
         for fl in S.C17_FLAVOURS:
             B.build(fl, UV.by_pack("c17"))
+        S.aux_prebuild()
     except B.BuildError as e:
         print("setup: build failed:", e)
         print(e.output[-4000:])
